@@ -210,6 +210,8 @@ func buildBatches(res *evid.Result, root string, thorough bool) []*batch {
 		src.WriteString(genManyStrings("S_many_5KiB", 200, 5*1024))
 		src.WriteString(genManyStrings("S_many_1KiB", 300, 1024))
 		src.WriteString(genManyStrings("S_small", 10, 100))
+		src.WriteString(genBranchyStrings("S_branchy_5KiB", 40, 3, 5*1024))
+		src.WriteString(genBranchyStrings("S_branchy_1KiB", 120, 2, 1024))
 		f := writeModule(filepath.Join(b.dir, "src"), "p.go", src.String())
 		b.cases = []Case{{ID: "strings", Family: "string-literals", Kind: "topo", File: f}}
 		saveBatch(b)
